@@ -31,6 +31,9 @@ pub struct Case {
     /// 0 exact, 1 (0, Some(n)), 2 (min(1,n), Some(n)), 3 (min(1,n), None), 4 (0, None)
     #[serde(default)]
     pub provider_hint: u8,
+    /// sequential modes: this many additional empty sources in a row before the last source
+    #[serde(default)]
+    pub empty_run: u32,
 }
 
 /// hands over the sources lazily with a legal but possibly inexact size hint (like filter/chain/peekable adaptors do)
@@ -135,20 +138,26 @@ impl Check for C09 {
         let total: u32 = sources.iter().map(|s| s.msgs.len() as u32).sum();
         Case {
             sources,
-            start_index: match rng.below(4) {
+            start_index: match rng.below(5) {
                 0 => 0,
                 1 => 1,
                 2 => rng.u32() % 1_000_000,
+                // the last message gets exactly the largest index
+                3 => u32::MAX - total.saturating_sub(1),
                 _ => u32::MAX - total - 1 - rng.below(3) as u32,
             },
             mode: rng.below(4) as u8,
             provider_hint: *rng.pick(&[0u8, 0, 1, 2, 2, 3, 4]),
+            empty_run: if rng.chance(1, 1500) { *rng.pick(&[5_000u32, 50_000, 400_000]) } else { 0 },
         }
     }
     fn run(c: &Case, ctx: &mut Ctx) -> Result<(), Violation> {
         let total: usize = c.sources.iter().map(|s| s.msgs.len()).sum();
-        if c.start_index as u64 + total as u64 >= u32::MAX as u64 {
-            return Ok(());
+        if c.start_index as u64 + total as u64 > u32::MAX as u64 + 1 {
+            return Ok(()); // the numbering would not be representable
+        }
+        if total > 0 && c.start_index as u64 + total as u64 == u32::MAX as u64 + 1 {
+            ctx.probe("last_index_is_u32_max");
         }
         ctx.sig.u64(c.mode as u64);
         ctx.sig.u64(c.sources.len() as u64);
@@ -180,8 +189,17 @@ impl Check for C09 {
             }
         }
         let mut counts = vec![];
-        let its: Vec<Box<dyn Iterator<Item = DltMessage>>> = c.sources.iter().enumerate().map(|(i, s)| make_iter(s, i, &mut counts)).collect();
-        let single = c.sources.len() == 1;
+        let mut its: Vec<Box<dyn Iterator<Item = DltMessage>>> = c.sources.iter().enumerate().map(|(i, s)| make_iter(s, i, &mut counts)).collect();
+        if c.empty_run > 0 && c.mode >= 2 {
+            let at = its.len().saturating_sub(1);
+            let tail = its.split_off(at);
+            for _ in 0..c.empty_run {
+                its.push(Box::new(std::iter::empty()));
+            }
+            its.extend(tail);
+            ctx.probe("long_run_of_empty_sources");
+        }
+        let single = c.sources.len() == 1 && !(c.empty_run > 0 && c.mode >= 2);
         let mut provider_exactly_one = single;
         let out: Vec<DltMessage> = match c.mode {
             0 => SortingMultiReaderIterator::new(c.start_index, its).collect(),
@@ -271,10 +289,14 @@ impl Check for C09 {
         if c.start_index != 0 {
             out.push(Case { start_index: 0, ..c.clone() });
         }
+        if c.empty_run > 0 {
+            out.push(Case { empty_run: 0, ..c.clone() });
+            out.push(Case { empty_run: c.empty_run / 2, ..c.clone() });
+        }
         out
     }
     fn rule() -> &'static str {
-        "one run = 0-6 sources (recordings of simulated recorders: increasing, tied via coarse clocks, unordered via clock jumps, far-future clocks up to u64::MAX, empty) of 0-40 messages each, two thirds of them pulled lazily as DltMessageIterator over LowMarkBufReader over a scripted short-read source, merged by one of the four constructors (sorting/sequential x new/new_or_single_it; the sequential ones receive the sources from a lazy provider whose size hint is exact or one of four legal inexact shapes) with start index in {0, 1, random, near u32::MAX}; every output message is attributed to (source, position) through its payload; non-trivial = more than one source and more than one message; distinct = hash of (mode, per-source lengths and first reception times)"
+        "one run = 0-6 sources (recordings of simulated recorders: increasing, tied via coarse clocks, unordered via clock jumps, far-future clocks up to u64::MAX, empty) of 0-40 messages each, two thirds of them pulled lazily as DltMessageIterator over LowMarkBufReader over a scripted short-read source, merged by one of the four constructors (sorting/sequential x new/new_or_single_it; the sequential ones receive the sources from a lazy provider whose size hint is exact or one of four legal inexact shapes) with start index in {0, 1, random, near u32::MAX, last index = u32::MAX}; rarely 5 000-400 000 additional empty sources in a row; every output message is attributed to (source, position) through its payload; non-trivial = more than one source and more than one message; distinct = hash of (mode, per-source lengths and first reception times)"
     }
     fn assumptions() -> Vec<&'static str> {
         vec![
